@@ -75,9 +75,9 @@ class Env:
     """parse.c with every function opaque except the ones under analysis and the private helpers only they call (so that extracting a
     helper from an analysed function does not blind the rule)"""
 
-    def __init__(self, P):
+    def __init__(self, P, unit=PU):
         self.P = P
-        self.u = P.unit(PU)
+        self.u = P.unit(unit)
         self.E = self.u.enums
         for k in ('TK_KEYWORD', 'TK_IDENT', 'TK_EOF', 'TK_PUNCT', 'TK_NUM', 'TY_INT', 'TY_FUNC'):
             if k not in self.E:
@@ -90,7 +90,7 @@ class Env:
             for n in fd.walk():
                 if n.kind == 'DeclRefExpr' and n.ref_kind == 'FunctionDecl' and n.ref_name in self.u.functions:
                     self.callers.setdefault(n.ref_name, set()).add(f)
-        it = self.u.fn('is_typename')
+        it = P.unit(PU).fn('is_typename')
         if it is None:
             raise AnalysisBroken('anchor is_typename vanished')
         self.typenames = set(x.str_value() for x in it.walk() if x.kind == 'StringLiteral')
@@ -117,6 +117,7 @@ class Env:
         it = _LocalEnumInterp(self.P, self.u, cfg)
         if local_enums_of:
             it.local_enums = _local_enums(self.u.fn(local_enums_of))
+        it.c13_inlined = inl
         return it
 
     # ---- concrete tokens ----------------------------------------------------------------------------------------------------
@@ -531,3 +532,251 @@ def r1314_declspec(P, rep, rule='R13.14'):
         else:
             rep.ob(rule, key, True, '', where=where)
     rep.extra['declspec_specifier_lists'] = {'runs': nruns}
+
+
+# ---------------------------------------------------------------------------------------------------------------------------------
+# R13.15 operand types that C11 allows reach no typing diagnostic
+
+INTEGER = ('bool', 'char', 'short', 'int', 'long', 'uchar', 'uint', 'ulong', 'enum')
+FLOATING = ('float', 'double', 'ldouble')
+ARITH = INTEGER + FLOATING
+OBJPTR = ('ptr-int', 'ptr-char', 'ptr-struct', 'ptr-ptr-int', 'array-int', 'ptr-array', 'ptr-vla')     # pointers to complete object types (arrays decay)
+SAME_BASE = {'ptr-int': ('ptr-int', 'array-int'), 'array-int': ('ptr-int', 'array-int'), 'ptr-char': ('ptr-char',), 'ptr-struct': ('ptr-struct',),
+             'ptr-ptr-int': ('ptr-ptr-int',), 'ptr-array': ('ptr-array',), 'ptr-vla': ('ptr-vla',)}
+ASSIGNABLE = ARITH + ('ptr-int', 'ptr-void', 'ptr-func', 'ptr-struct', 'struct', 'union')           # modifiable lvalue types (6.5.16p2): not an array, not a function
+DEREFABLE = ('ptr-int', 'ptr-char', 'ptr-struct', 'ptr-ptr-int', 'array-int', 'ptr-array', 'ptr-func', 'ptr-vla')  # 6.5.3.2p2: pointer operand; the result of *(void *) is not usable
+OBJECT_TYPES = ARITH + ('ptr-int', 'ptr-void', 'ptr-func', 'array-int', 'struct', 'union')          # complete object types a variable may have (6.7p7)
+
+
+class Types:
+    """concrete Type objects; scalars read from type.c (sa.chibi.Catalogue), the rest built the way type.c's constructors build them"""
+
+    def __init__(self, P):
+        from .chibi import Catalogue
+        self.cat = Catalogue(P)
+        self.E = P.unit('type.c').enums
+        for k in ('TY_PTR', 'TY_ARRAY', 'TY_VLA', 'TY_STRUCT', 'TY_UNION', 'TY_FUNC', 'TY_ENUM', 'TY_VOID'):
+            if k not in self.E:
+                raise AnalysisBroken('type kind %s vanished' % k)
+
+    def make(self, name):
+        E = self.E
+
+        def T(label, **kw):
+            o = Obj('Type', lazy=True, label=label)
+            o.fields.update({'base': 0, 'origin': 0, 'is_unsigned': 0, 'is_atomic': 0, 'name': 0, 'next': 0, 'members': 0, 'params': 0, 'return_ty': 0, 'is_variadic': 0,
+                             'is_flexible': 0, 'is_packed': 0, 'array_len': 0, 'vla_len': 0})
+            o.fields.update(kw)
+            return o
+        if 'ty_' + name in self.cat.scalars:
+            f = self.cat.scalars['ty_' + name]
+            return T(name, kind=int(f['kind']), size=int(f['size']), align=int(f['align']), is_unsigned=int(f['is_unsigned'] or 0))
+        if name == 'enum':
+            c = self.cat.ctors['enum']
+            return T(name, kind=E['TY_ENUM'], size=int(c.fields.get('size', 4)), align=int(c.fields.get('align', 4)))
+        if name in ('struct', 'union'):
+            return T(name, kind=E['TY_STRUCT' if name == 'struct' else 'TY_UNION'], size=8, align=4, members=Obj('Member', lazy=True, label='members'))
+        if name == 'func':
+            return T(name, kind=E['TY_FUNC'], size=1, align=1, return_ty=self.make('int'))
+        if name == 'vla':
+            return T(name, kind=E['TY_VLA'], size=8, align=8, base=self.make('int'), vla_len=Obj('Node', lazy=True, label='vla_len'), vla_size=Obj('Obj', lazy=True, label='vla_size'))
+        if name.startswith('ptr-'):
+            return T(name, kind=E['TY_PTR'], size=8, align=8, is_unsigned=1, base=self.make(name[4:]))
+        if name.startswith('array-'):
+            b = self.make(name[6:])
+            return T(name, kind=E['TY_ARRAY'], size=3 * b.fields['size'], align=b.fields['align'], base=b, array_len=3)
+        if name == 'array':
+            return self.make('array-int')
+        raise AnalysisBroken('no witness type %s' % name)
+
+
+def _node(env, T, kind, label, **kw):
+    n = Obj('Node', lazy=False, label=label, fields={f: 0 for f, t, b in env.u.records['Node']})
+    n.fields.update({'kind': env.E[kind], 'ty': T, 'tok': env.token('x')})
+    n.fields.update(kw)
+    return n
+
+
+class _Results:
+    def __init__(self):
+        self.r = {}
+
+    def note(self, key, ok, msg=None, und=None, facts=None):
+        r = self.r.setdefault(key, [True, None, None, None])
+        if und and r[2] is None:
+            r[2] = und
+        if not ok and r[0]:
+            r[0], r[1], r[3] = False, msg, facts
+
+    def flush(self, rep, rule, where):
+        for key, (ok, msg, und, facts) in sorted(self.r.items()):
+            if not ok:
+                rep.ob(rule, key, False, msg, where=where, facts=facts)
+            elif und:
+                rep.undecided(rule, key, und, where=where)
+            else:
+                rep.ob(rule, key, True, '', where=where)
+
+
+def _judge(R, it, key, fname, mk, what, why_valid, unit=None):
+    """run fname on the concrete input; every determined path must return"""
+    try:
+        res = it.explore(fname, mk, max_paths=64, unit=unit)
+    except (AnalysisBroken, Unsupported) as ex:
+        R.note(key, True, und='%s() cannot be interpreted on %s: %s' % (fname, what, ex))
+        return None
+    if not res:
+        R.note(key, True, und='no path of %s() could be interpreted for %s' % (fname, what))
+        return None
+    for ctx, out in res:
+        if out[0] != 'noreturn':
+            continue
+        m = _msg(out)
+        if _determined(ctx):
+            R.note(key + '<-"%s"' % m.replace(' ', '_')[:60], False,
+                   '%s() answers %s with the diagnostic "%s", but C11 allows it (%s) -> a program a conforming compiler accepts is rejected' % (fname, what, m, why_valid),
+                   facts={'diagnostic_line': out[3] if len(out) > 3 else None})
+        else:
+            R.note(key, True, und='for %s a diagnostic ("%s") is reached through a decision on a value the interpreter does not know (%s)' % (what, m, ctx.trail[-3:]))
+    R.note(key, True)
+    return res
+
+
+def r1315_typing(P, rep, rule='R13.15'):
+    rep.rule(rule, 'operands and declarations whose types C11 allows reach no typing diagnostic: additive operators on arithmetic/pointer operands (6.5.6p2, p3), calls with a '
+                   'matching number of arguments through a function or a pointer to function (6.5.2.2p1, p2), assignment to every modifiable lvalue type (6.5.16p2), indirection '
+                   'through every pointer to object or function (6.5.3.2p2), `&` of a non-bit-field lvalue (6.5.3.2p1), a variable of every complete object type (6.7p7), a reference '
+                   'to a declared enum tag. Decided by interpreting new_add, new_sub, funcall, add_type, unary, declaration and enum_specifier on concrete witness types', floor=100)
+    env = Env(P)
+    u = env.u
+    tys = Types(P)
+    E = env.E
+    R = _Results()
+    tokx = lambda: env.token('+')
+
+    # ---- additive operators -------------------------------------------------------------------------------------------------
+    for fname, valid in (('new_add', [(a, b) for a in ARITH for b in ARITH] + [(p, i) for p in OBJPTR for i in INTEGER] + [(i, p) for p in OBJPTR for i in INTEGER]),
+                         ('new_sub', [(a, b) for a in ARITH for b in ARITH] + [(p, i) for p in OBJPTR for i in INTEGER] + [(p, q) for p in OBJPTR for q in SAME_BASE[p]])):
+        fd = u.fn(fname)
+        if fd is None:
+            rep.undecided(rule, '%s:%s:anchor' % (PU, fname), '%s() vanished' % fname)
+            continue
+        if [(p.type or '').replace(' ', '') for p in u.params(fname)] != ['Node*', 'Node*', 'Token*']:
+            rep.undecided(rule, '%s:%s:signature' % (PU, fname), '%s() no longer takes (Node *lhs, Node *rhs, Token *tok)' % fname)
+            continue
+        it = env.interp((fname, 'is_numeric', 'is_integer', 'is_flonum'), models=env.token_models())
+        op = '+' if fname == 'new_add' else '-'
+        for a, b in valid:
+            cls = lambda x: 'integer' if x in INTEGER else ('floating' if x in FLOATING else x)
+            key = '%s:%s:%s,%s' % (PU, fname, cls(a), cls(b))
+            _judge(R, it, key, fname, lambda ctx, a=a, b=b: [_node(env, tys.make(a), 'ND_VAR', 'lhs'), _node(env, tys.make(b), 'ND_VAR', 'rhs'), tokx()],
+                   'the operands `%s %s %s`' % (a, op, b),
+                   '6.5.6p2/p3: both operands arithmetic, or a pointer to a complete object type and an integer%s' % ('' if op == '+' else ', or two pointers to compatible object types'))
+    # ---- function calls -------------------------------------------------------------------------------------------------------
+    fd = u.fn('funcall')
+    if fd is None or [(p.type or '').replace(' ', '') for p in u.params('funcall')] != ['Token**', 'Token*', 'Node*']:
+        rep.undecided(rule, '%s:funcall:anchor' % PU, 'funcall(Token **rest, Token *tok, Node *fn) vanished')
+    else:
+        def h_assign(it, ctx, call, args):
+            rest, tok = args[0], args[1]
+            if not (isinstance(rest, _Ref) and isinstance(tok, Obj)):
+                raise AnalysisBroken('assign() called with unexpected arguments')
+            rest.place.set(it, tok.fields.get('next'))
+            return _node(env, tys.make('int'), 'ND_NUM', 'arg')
+        it = env.interp(('funcall', 'skip', 'consume'), cut={'assign': h_assign}, models=env.token_models())
+        for callee in ('func', 'ptr-func'):
+            for nparams in (0, 1, 2):
+                for variadic in (0, 1):
+                    for nargs in (0, 1, 2, 3):
+                        if not (nargs == nparams or (variadic and nargs >= nparams)):
+                            continue
+
+                        def mk(ctx, callee=callee, nparams=nparams, variadic=variadic, nargs=nargs):
+                            ft = tys.make('func')
+                            nxt = 0
+                            for i in range(nparams):
+                                p = tys.make('int')
+                                p.fields['next'] = nxt
+                                nxt = p
+                            ft.fields.update({'params': nxt, 'is_variadic': variadic})
+                            t = ft
+                            if callee == 'ptr-func':
+                                t = tys.make('ptr-int')
+                                t.fields['base'] = ft
+                            seq = []
+                            for i in range(nargs):
+                                seq += ([','] if i else []) + ['1']
+                            return [_Ref(_ValPlace(0)), env.tokens(seq + [')', ';']), _node(env, t, 'ND_VAR', 'fn')]
+                        key = '%s:funcall:%s/%d-parameters%s/%s' % (PU, callee, nparams, '+variadic' if variadic else '', 'as-many-arguments' if nargs == nparams else 'more-arguments')
+                        _judge(R, it, key, 'funcall', mk, 'a call with %d argument(s) through a %s with %d parameter(s)%s' % (nargs, 'function' if callee == 'func' else 'pointer to function', nparams, ' and `...`' if variadic else ''),
+                               '6.5.2.2p1/p2: the called expression is a (pointer to) function and the number of arguments agrees with the number of parameters, or exceeds it for `...`')
+    # ---- add_type: assignment and indirection ---------------------------------------------------------------------------------
+    tenv = Env(P, 'type.c')
+    tu = tenv.u
+    if tu.fn('add_type') is None:
+        rep.undecided(rule, 'type.c:add_type:anchor', 'add_type() vanished')
+    else:
+        it = tenv.interp(('add_type',), models=env.token_models())
+        nenv = Env(P, 'type.c')
+        nenv.E = dict(E)
+        for t in ASSIGNABLE:
+            cls = 'integer' if t in INTEGER else ('floating' if t in FLOATING else t)
+            _judge(R, it, 'type.c:add_type:ND_ASSIGN/%s' % cls, 'add_type',
+                   lambda ctx, t=t: [_node(tenv, 0, 'ND_ASSIGN', 'node', lhs=_node(tenv, tys.make(t), 'ND_VAR', 'lhs'), rhs=_node(tenv, tys.make(t), 'ND_VAR', 'rhs'))],
+                   'an assignment to an lvalue of type `%s`' % t, '6.5.16p2: the left operand is a modifiable lvalue: any object type except an array')
+        for t in DEREFABLE:
+            _judge(R, it, 'type.c:add_type:ND_DEREF/%s' % t, 'add_type',
+                   lambda ctx, t=t: [_node(tenv, 0, 'ND_DEREF', 'node', lhs=_node(tenv, tys.make(t), 'ND_VAR', 'lhs'))],
+                   'the indirection `*` on an operand of type `%s`' % t, '6.5.3.2p2: the operand has pointer type (an array decays to a pointer)')
+    # ---- unary & ---------------------------------------------------------------------------------------------------------------
+    if u.fn('unary') is None:
+        rep.undecided(rule, '%s:unary:anchor' % PU, 'unary() vanished')
+    else:
+        def h_cast(operand):
+            def h(it, ctx, call, args):
+                rest, tok = args[0], args[1]
+                if isinstance(rest, _Ref) and isinstance(tok, Obj):
+                    rest.place.set(it, tok.fields.get('next'))
+                return operand()
+            return h
+        for what, operand in (('variable', lambda: _node(env, tys.make('int'), 'ND_VAR', 'operand')),
+                              ('dereference', lambda: _node(env, tys.make('int'), 'ND_DEREF', 'operand')),
+                              ('array', lambda: _node(env, tys.make('array-int'), 'ND_VAR', 'operand')),
+                              ('function', lambda: _node(env, tys.make('func'), 'ND_VAR', 'operand')),
+                              ('member', lambda: _node(env, tys.make('int'), 'ND_MEMBER', 'operand', member=Obj('Member', lazy=True, label='member', fields={'is_bitfield': 0, 'ty': tys.make('int')})))):
+            it = env.interp(('unary',), cut={'cast': h_cast(operand)}, models=env.token_models())
+            _judge(R, it, '%s:unary:address-of/%s' % (PU, what), 'unary', lambda ctx: [_Ref(_ValPlace(0)), env.tokens(['&', 'x', ';'])],
+                   '`&` applied to a %s that is not a bit-field' % what, '6.5.3.2p1: the operand is a function designator or an lvalue that is not a bit-field')
+    # ---- declaration of a variable of a complete object type --------------------------------------------------------------------
+    if u.fn('declaration') is None or [(p.type or '').replace(' ', '') for p in u.params('declaration')] != ['Token**', 'Token*', 'Type*', 'VarAttr*']:
+        rep.undecided(rule, '%s:declaration:anchor' % PU, 'declaration(Token **rest, Token *tok, Type *basety, VarAttr *attr) vanished')
+    else:
+        afields = [f for f, t, b in (u.records.get('VarAttr') or [])]
+        for t in OBJECT_TYPES:
+            for static in ((0, 1) if 'is_static' in afields else (0,)):
+                def h_decl(it, ctx, n, args, t=t):
+                    if not args or not isinstance(args[0], _Ref) or not isinstance(args[1], Obj):
+                        raise AnalysisBroken('declarator() is not called with the address of the token cursor')
+                    ty = tys.make(t)
+                    ty.fields.update({'name': args[1], 'name_pos': args[1]})
+                    args[0].place.set(it, args[1].fields.get('next'))
+                    return ty
+                it = env.interp(('declaration', 'new_lvar', 'new_var', 'new_gvar', 'new_anon_gvar', 'skip', 'consume'), cut={'declarator': h_decl}, models=env.token_models(),
+                                globals_={'locals': 0, 'globals': 0})
+
+                def mk(ctx, static=static):
+                    a = Obj('VarAttr', lazy=False, label='attr', fields={f: 0 for f in afields})
+                    if static:
+                        a.fields['is_static'] = 1
+                    return [_Ref(_ValPlace(0)), env.tokens(['x', ';', '}']), tys.make('int'), a]
+                cls = 'integer' if t in INTEGER else ('floating' if t in FLOATING else t)
+                _judge(R, it, '%s:declaration:%s/%s' % (PU, 'static' if static else 'automatic', cls), 'declaration', mk,
+                       'the block-scope declaration `%sT x;` with T = `%s`' % ('static ' if static else '', t), '6.7p7: an object may have any complete object type')
+    # ---- reference to a declared enum tag ------------------------------------------------------------------------------------------
+    if u.fn('enum_specifier') is None:
+        rep.undecided(rule, '%s:enum_specifier:anchor' % PU, 'enum_specifier() vanished')
+    else:
+        it = env.interp(('enum_specifier', 'skip', 'consume'), cut={'find_tag': lambda it, ctx, c, a: tys.make('enum')}, models=env.token_models())
+        _judge(R, it, '%s:enum_specifier:declared-tag' % PU, 'enum_specifier', lambda ctx: [_Ref(_ValPlace(0)), env.tokens(['E', 'x', ';'])],
+               '`enum E x;` where E is a declared enum tag', '6.7.2.3: a declared tag may be referred to')
+    R.flush(rep, rule, '%s:%d' % (PU, u.fn('new_add').line if u.fn('new_add') else 1))
